@@ -181,8 +181,7 @@ func (e *env) start(idx []int, servers []string) error {
 func (e *env) stopAll() {
 	for k, n := range e.nodes {
 		if n != nil {
-			n.VerifShardManager().VerifUnloadAll()
-			n.Close()
+			drive.StopClusterNode(n, e.specs[k])
 			e.nodes[k] = nil
 		}
 	}
